@@ -169,21 +169,34 @@ def rule_shape(program, ctx):
     L = None
     islist = False
     cmds = set()
-    for n in ast.walk(vm):
-        if isinstance(n, ast.If):
-            t = n.test
-            returns_false = any(isinstance(r, ast.Return) and isinstance(r.value, ast.Constant) and r.value.value is False for r in n.body)
-            if not returns_false:
-                continue
-            if isinstance(t, ast.Compare) and len(t.ops) == 1 and isinstance(t.left, ast.Call) and call_name(t.left) == "len" and dotted(t.left.args[0]) == param and isinstance(t.comparators[0], ast.Constant):
-                if isinstance(t.ops[0], ast.Lt):
-                    L = t.comparators[0].value
-                elif isinstance(t.ops[0], ast.LtE):
-                    L = t.comparators[0].value + 1
-            if isinstance(t, ast.UnaryOp) and isinstance(t.op, ast.Not) and isinstance(t.operand, ast.Call) and call_name(t.operand) == "isinstance" and dotted(t.operand.args[0]) == param and dotted(t.operand.args[1]) == "list":
-                islist = True
-            if isinstance(t, ast.Compare) and len(t.ops) == 1 and isinstance(t.ops[0], ast.NotIn) and isinstance(t.comparators[0], (ast.Tuple, ast.List, ast.Set)):
-                cmds = {e.value for e in t.comparators[0].elts if isinstance(e, ast.Constant)}
+    # facts that hold whenever validate_message returns truthy: false edges of `if X: return False` guards and the
+    # conjuncts of a final `return <bool expr>`
+    from ..lib import implied
+
+    facts = []
+    for st in vm.body:
+        if isinstance(st, ast.If) and not st.orelse and any(isinstance(r, ast.Return) and isinstance(r.value, ast.Constant) and r.value.value is False for r in st.body):
+            facts += [c[0] for c in implied(st.test, "f") if len(c) == 1]
+        elif isinstance(st, ast.Return) and st.value is not None and not isinstance(st.value, ast.Constant):
+            facts += [c[0] for c in implied(st.value, "t") if len(c) == 1]
+    for expr, pol in facts:
+        if isinstance(expr, ast.Call) and call_name(expr) == "isinstance" and len(expr.args) == 2 and dotted(expr.args[0]) == param and dotted(expr.args[1]) == "list" and pol:
+            islist = True
+        if isinstance(expr, ast.Compare) and len(expr.ops) == 1:
+            l, r, op = expr.left, expr.comparators[0], type(expr.ops[0])
+            if isinstance(l, ast.Call) and call_name(l) == "len" and l.args and dotted(l.args[0]) == param and isinstance(r, ast.Constant) and isinstance(r.value, int):
+                n = r.value
+                bound = None
+                if (op is ast.Lt and not pol) or (op is ast.GtE and pol):
+                    bound = n
+                elif (op is ast.LtE and not pol) or (op is ast.Gt and pol):
+                    bound = n + 1
+                elif op is ast.Eq and pol:
+                    bound = n
+                if bound is not None:
+                    L = max(L or 0, bound)
+            if isinstance(l, ast.Subscript) and dotted(l.value) == param and isinstance(r, (ast.Tuple, ast.List, ast.Set)) and ((op is ast.In and pol) or (op is ast.NotIn and not pol)):
+                cmds = {e.value for e in r.elts if isinstance(e, ast.Constant)}
     if L is None or not islist:
         ctx.bad(finding_func(P, rid, vm, "validate_message no longer establishes `isinstance(message, list)` and a minimum length", text="def validate_message(...)"))
         return
